@@ -110,6 +110,7 @@ def corpus_defs(tier):
     # init segments: generator families, plus AV1 sequence headers enumerated by MCAv1Seq (operating points: tier / level) handed to the builder / config
     d['fraginit'] = dict(trace='TraceFrag', transform='av1init', mc=[
         _mc({'Sections': '{"operating"}', 'Lite': 'TRUE'}, module='MCAv1Seq', invariants=('RoundTrip', 'FramingOK'), properties=(), facets=None, rel=None, workers=4),
+        _mc({'Sections': '{"color"}', 'Lite': 'TRUE'}, module='MCAv1Seq', invariants=('RoundTrip', 'FramingOK'), properties=(), facets=None, rel=None, workers=4),
     ], rand=[dict(gen='fraginit', n=0, rel=None, facets=None)])
     d['meta'] = dict(trace='TraceMuxide', mc=[
         _mc({'From': 0, 'To': 60000 if q else 2932896, 'Stride': 1}, module='MCMeta', invariants=('RoundTrip', 'Monotone'), properties=()),
